@@ -191,7 +191,8 @@ def observe(p: Probe, base, mut, keyb):
 
 
 def _short(v) -> str:
-    s = " ".join(repr(v).split())
+    import re
+    s = re.sub(r" at 0x[0-9a-f]+", "", " ".join(repr(v).split()))
     return s if len(s) <= 160 else s[:157] + "..."
 
 
